@@ -10,6 +10,7 @@
 import XzVerif.Lemmas.Sparse
 import XzVerif.Lemmas.SparseCoder
 import XzVerif.Model.SparseCfg
+import XzVerif.Lemmas.XzArgs
 
 namespace XzVerif.C18
 open XzVerif.Sparse
@@ -371,6 +372,38 @@ theorem verdict_independent_of_verbosity (cfg : Cfg) (o : Opts) (v : Nat) (files
 theorem printed_iff (verbosity : Nat) (m : Msg) :
     m.printed verbosity = true ↔ (m = .error ∧ 1 ≤ verbosity) ∨ (m = .warning ∧ 2 ≤ verbosity) := by
   cases m <;> simp [Msg.printed, Msg.level] <;> exact ⟨of_decide_eq_true, decide_eq_true⟩
+
+/-! ### Option order and the environment -/
+
+/-- **config_independent_of_option_order.** Options are applied one by one in the order XZ_DEFAULTS, XZ_OPT, command
+    line, each assigning only its own variable; so any two orders of the same options (each variable set at most once)
+    give the same configuration — in particular it does not matter whether `-d` / `-t` comes before or after
+    `--flush-timeout=N`, `--block-size`, `-T`, `--memlimit`, nor which of them sit in the environment. -/
+theorem config_independent_of_option_order (l1 l2 : List XzArgs.Arg) (hp : l1.Perm l2)
+    (hn : (l1.map XzArgs.Arg.slot).Nodup) (c : XzArgs.Conf) :
+    l1.foldl XzArgs.parseStep c = l2.foldl XzArgs.parseStep c :=
+  XzArgs.foldl_perm hp hn c
+
+/-- The same for the three sources: moving options between XZ_DEFAULTS, XZ_OPT and the command line changes nothing. -/
+theorem config_independent_of_option_source (d1 o1 c1 d2 o2 c2 : List XzArgs.Arg)
+    (hp : (d1 ++ o1 ++ c1).Perm (d2 ++ o2 ++ c2)) (hn : ((d1 ++ o1 ++ c1).map XzArgs.Arg.slot).Nodup) :
+    XzArgs.parseArgs d1 o1 c1 = XzArgs.parseArgs d2 o2 c2 :=
+  XzArgs.foldl_perm hp hn {}
+
+/-- **no_flush_when_not_compressing.** The operation mode is the LAST mode option of the whole option sequence (compress
+    if there is none), the flush timeout the last `--flush-timeout`; the timeout is in force only if that final mode is
+    compress. So `xz --flush-timeout=N -d`, `xz -d --flush-timeout=N` and `XZ_OPT=--flush-timeout=N xz -d` all decompress with
+    no flush timer: input arriving slowly through a pipe is just waited for. -/
+theorem no_flush_when_not_compressing (l : List XzArgs.Arg) :
+    ((l.foldl XzArgs.parseStep {}).mode =
+        ((l.filterMap fun a => match a with | .mode m => some m | _ => none).getLast?).getD .compress) ∧
+    ((l.foldl XzArgs.parseStep {}).mode ≠ .compress → XzArgs.effectiveFlushTimeout (l.foldl XzArgs.parseStep {}) = 0) := by
+  refine ⟨XzArgs.mode_of_foldl l {}, ?_⟩
+  intro h
+  simp [XzArgs.effectiveFlushTimeout, h]
+
+example : XzArgs.effectiveFlushTimeout (XzArgs.parseArgs [] [.flushTimeout 100] [.threads 1, .mode .decompress, .toStdout]) = 0
+    ∧ XzArgs.effectiveFlushTimeout (XzArgs.parseArgs [] [] [.flushTimeout 100, .toStdout]) = 100 := by decide
 
 /-! ### Several files in one invocation -/
 
